@@ -1,7 +1,7 @@
 """C13 — conv-probe property (see vlib/props/convprops.py)."""
 from vlib.props import convprops as P, convcommon as cc
 from vlib import convgen as g
-globals().update(P.make('C13', 'conv probe in LMTP mode: every recipient list up to the tier length over {Postmaster@x.org, postmaster@x.org (case variant), b@y.net} x status scripts (empty, and sampled sub-multisets of the occurrences in every order; unknown recipient and one-too-many on the BDAT path) x return value x {DATA, BDAT} x {LMTPSession, plain backend}; sweep + walks. non-trivial = at least one callback', ['C13_mechanism', 'C13_one_per_recipient', 'C13_model_is_spec', 'C13_contract_agrees', 'C13_attribution'], [('lmtp-status-scripts', P.c13_cases)], lambda a: cc.project(a, codes='exact', enh=True, lmtp=True, drecs='ret'), tls=False, configs=[c for c in g.CONFIGS if c.get('lmtp')]))
+globals().update(P.make('C13', 'conv probe in LMTP mode: every recipient list up to the tier length over {Postmaster@x.org, postmaster@x.org (case variant), b@y.net} x status scripts (empty, and sampled sub-multisets of the occurrences in every order; unknown recipient and one-too-many on the BDAT path) x return value x {DATA, BDAT} x {LMTPSession, plain backend}; sweep + walks. non-trivial = at least one callback', ['C13_mechanism', 'C13_one_per_recipient', 'C13_model_is_spec', 'C13_contract_agrees', 'C13_attribution', 'C13_failed_last_one_per_recipient'], [('lmtp-status-scripts', P.c13_cases)], lambda a: cc.project(a, codes='exact', enh=True, lmtp=True, drecs='ret'), tls=False, configs=[c for c in g.CONFIGS if c.get('lmtp')]))
 
 # --- schedules (LMTP): a slow delivery of an aborted chunked transfer completing before/after the next transaction: the
 # statuses of the next message must be its own ------------------------------------------------------------------------
